@@ -140,6 +140,15 @@ Section C06.
     valid_sol ts c /\ copied_from c p /\ sid c = fresh /\ f = S fresh.
   Proof. exact (um_valid E P). Qed.
 
+  (* the repaired um_mutation (fix f6dc0d6): when ub - lb overflows, lb*(1-r) + ub*r with r = random.random() *)
+  Theorem c06_um_interp_in_bounds : forall a b r : Q, (a <= b)%Q -> (0 <= r)%Q -> (r <= 1)%Q ->
+    (a <= a * (1 - r) + b * r)%Q /\ (a * (1 - r) + b * r <= b)%Q.
+  Proof. exact um_interp_in_bounds. Qed.
+
+  Theorem c06_um_value_valid : forall lb ub t x t', xleb lb ub = true ->
+    um_value lb ub t = Ok (x, t') -> in_bounds lb ub x.
+  Proof. exact um_value_valid. Qed.
+
   Theorem c06_uniform_mutation_valid : forall p ts fresh s t c f t',
     Forall wf ts -> valid_sol ts s -> uniform_mutation E P p ts fresh s t = Ok (c, f, t') ->
     valid_sol ts c /\ copied_from c s /\ sid c = fresh /\ f = S fresh.
